@@ -35,8 +35,31 @@ fn decode_time(tag: &str, s: &str) -> Result<Result<Time, String>, String> {
     let bytes = der::tlv(tagbyte(tag), s.as_bytes());
     guarded(|| Mode::Der.decode(bytes.as_ref(), Time::take_from).map_err(|e| e.to_string()))
 }
+/// A writer that takes at most `0` octets per call (a socket, a pipe: `write` may always take less than it is given).
+struct Pieces(usize, Vec<u8>);
+impl std::io::Write for Pieces {
+    fn write(&mut self, buf: &[u8]) -> std::io::Result<usize> {
+        let n = buf.len().min(self.0);
+        self.1.extend_from_slice(&buf[..n]);
+        Ok(n)
+    }
+    fn flush(&mut self) -> std::io::Result<()> { Ok(()) }
+}
+/// The DER a value writes, whatever it is written into: the captured form, and the same through writers that take one octet
+/// and five octets per call.  If they differ the odd one out is returned (the caller's comparison then reports it).
+fn der_of<V: bcder::encode::Values>(v: V) -> Vec<u8> {
+    use bcder::encode::Values;
+    let whole = v.to_captured(Mode::Der).into_bytes().to_vec();
+    for k in [1usize, 5] {
+        let mut w = Pieces(k, Vec::new());
+        if v.write_encoded(Mode::Der, &mut w).is_err() || w.1 != whole {
+            return w.1;
+        }
+    }
+    whole
+}
 fn encode_time(t: Time) -> Vec<u8> {
-    t.encode_varied().to_captured(Mode::Der).into_bytes().to_vec()
+    der_of(t.encode_varied())
 }
 
 fn replay_time(s: &mut Summary, c: &Value) {
@@ -170,8 +193,8 @@ fn replay_window(s: &mut Summary, c: &Value) {
             if mi >= 2 {
                 return Ok(()); // X.509 cannot carry fractions of a second: no encoding round trip for these
             }
-            let bytes = v.encode().to_captured(Mode::Der).into_bytes();
-            let back = Mode::Der.decode(bytes.as_ref(), Validity::take_from).map_err(|e| ("window:der".to_string(), e.to_string()))?;
+            let bytes = der_of(v.encode());
+            let back = Mode::Der.decode(bytes.as_slice(), Validity::take_from).map_err(|e| ("window:der".to_string(), e.to_string()))?;
             if back != v {
                 return Err(("window:der".into(), format!("validity {v:?} decodes back as {back:?}")));
             }
